@@ -50,12 +50,14 @@ def gen_case(rng):
         p = t if "." in t else t + ".zo"
         existing[p] = "# existing %s\n\n- keep me\n" % p
     files.update(existing)
-    target = rng.choice(TARGETS)
-    template = rng.choice([None, None, "tmpl/prj.zot", "tmpl/day.zot", "tmpl/missing.zot"])
-    vars_ = rng.choice([None, {}, {"parent": "home_page"}, {"parent": "p", "name": "from_vars"}, {"raw": "20240105"},
-                        {"date": "20240202", "parent": "q"}, {"name": "n", "date": "not-a-date"}])
-    ow = rng.random() < 0.2
-    return {"files": files, "pats": pats, "target": target, "template": template, "vars": vars_, "overwrite": ow}
+    ops = []
+    for _ in range(rng.choice([1, 1, 2, 3])):
+        target = rng.choice(TARGETS)
+        template = rng.choice([None, None, None, "tmpl/prj.zot", "tmpl/day.zot", "tmpl/missing.zot"])
+        vars_ = rng.choice([None, {}, {"parent": "home_page"}, {"parent": "p", "name": "from_vars"}, {"raw": "20240105"},
+                            {"date": "20240202", "parent": "q"}, {"name": "n", "date": "not-a-date"}])
+        ops.append({"target": target, "template": template, "vars": vars_, "overwrite": rng.random() < 0.2})
+    return {"files": files, "pats": pats, "ops": ops}
 
 
 def render_oracle(body, pvars):
@@ -73,12 +75,12 @@ def render_oracle(body, pvars):
         return ["exn", type(e).__name__]
 
 
-def expected(eng, case, files):
+def expected(eng, pats_in, case, files):
     """Model plan + oracles -> (status, tree)."""
     target = case["target"]
     norm = target if "." in target else target + ".zo"
     pats = []
-    for pat, tmpl in case["pats"]:
+    for pat, tmpl in pats_in:
         m = re.compile(pat).match(norm)
         if m is None:
             pats.append([pat, tmpl, None])
@@ -104,9 +106,9 @@ def expected(eng, case, files):
     return ["ok"], tree
 
 
-def run_impl_once(d, case):
+def run_impl_once(d, pats_in, case):
     from zorg.service.templates import init_from_template
-    pm = {re.compile(p): Path(t) for p, t in case["pats"]}
+    pm = {re.compile(p): Path(t) for p, t in pats_in}
     try:
         with quiet():
             init_from_template(d, pm, case["target"], template=Path(case["template"]) if case["template"] else None,
@@ -118,37 +120,42 @@ def run_impl_once(d, case):
 
 def check_case(eng, case, oc):
     d = tempfile.mkdtemp(prefix="c16_")
+    steps = []
     try:
         write_tree(d, case["files"])
-        st1 = run_impl_once(d, case)
-        tree1 = read_tree(d)
-        st2 = run_impl_once(d, case)
-        tree2 = read_tree(d)
+        for op in case["ops"]:
+            before = read_tree(d)
+            st1 = run_impl_once(d, case["pats"], op)
+            tree1 = read_tree(d)
+            st2 = run_impl_once(d, case["pats"], op)
+            tree2 = read_tree(d)
+            steps.append((op, before, st1, tree1, st2, tree2))
     finally:
         shutil.rmtree(d, ignore_errors=True)
     oc.evaluations += 1
-    est, etree = expected(eng, case, case["files"])
-    if est[0] == "oom":
-        oc.count("out_of_model")
-        return True
-    target = case["target"] if "." in case["target"] else case["target"] + ".zo"
-    fails = []
-    if (st1[0], tree1) != (est[0], etree) or (st1[0] == "exn" and est != st1 and est[0] == "exn" and est[1] != st1[1]):
-        fails.append(("first init differs from the model's plan rendered by jinja2",
-                      {"status": st1, "target": tree1.get(target)}, {"status": est, "target": (etree or {}).get(target)}))
-    # property clauses checked on the implementation alone
-    if target in case["files"] and not case["overwrite"] and tree1 != case["files"]:
-        fails.append(("existing file changed without overwrite", tree1.get(target), case["files"][target]))
-    if st1[0] == "ok" and not case["overwrite"] and tree2 != tree1:
-        fails.append(("second init changed something", tree2.get(target), tree1.get(target)))
-    changed = [k for k in set(tree1) | set(case["files"]) if tree1.get(k) != case["files"].get(k)]
-    if any(k != target for k in changed):
-        fails.append(("a file other than the target changed", changed, [target]))
-    if fails:
-        why, impl, spec = fails[0]
-        oc.spec_fail.append((case, {"why": why, "impl": impl}, spec, None))
-        return False
-    oc.count("plan_" + ("write" if tree1 != case["files"] else "nowrite") + ("_exn" if st1[0] != "ok" else ""))
+    for op, before, st1, tree1, st2, tree2 in steps:
+        est, etree = expected(eng, case["pats"], op, before)
+        if est[0] == "oom":
+            oc.count("out_of_model")
+            return True
+        target = op["target"] if "." in op["target"] else op["target"] + ".zo"
+        fails = []
+        if (st1[0], tree1) != (est[0], etree):
+            fails.append(("init differs from the model's plan rendered by jinja2",
+                          {"status": st1, "target": tree1.get(target)}, {"status": est, "target": (etree or {}).get(target)}))
+        # property clauses checked on the implementation alone
+        if target in before and not op["overwrite"] and tree1 != before:
+            fails.append(("existing file changed without overwrite", tree1.get(target), before[target]))
+        if st1[0] == "ok" and not op["overwrite"] and tree2 != tree1:
+            fails.append(("second init changed something", tree2.get(target), tree1.get(target)))
+        changed = [k for k in set(tree1) | set(before) if tree1.get(k) != before.get(k)]
+        if any(k != target for k in changed):
+            fails.append(("a file other than the target changed", changed, [target]))
+        if fails:
+            why, impl, spec = fails[0]
+            oc.spec_fail.append((case, {"why": why, "op": op, "impl": impl}, spec, None))
+            return False
+        oc.count("plan_" + ("write" if tree1 != before else "nowrite") + ("_exn" if st1[0] != "ok" else ""))
     return True
 
 
@@ -158,7 +165,7 @@ def run(oc, tier, seed):
     n = 400 if tier == "quick" else 8000
     oc.rule = ("random pattern maps (0-6 of 9 overlapping regexes with named groups and date-like captures, in random order), "
                "targets existing/missing/in sub-directories/with invalid dates, optional explicit template, variable maps "
-               "colliding with group names, overwrite flag; init run twice in one process (templates with equal basenames "
+               "colliding with group names, overwrite flag; sequences of 1-3 inits on one directory, each run twice, all in one process (templates with equal basenames "
                "in different directories share the process-wide cache); non-trivial = a file was written")
     for f in sorted(glob.glob(os.path.join(lib.VERIF, "corpus", "C16", "*.json"))):
         check_case(eng, json.load(open(f)), oc)
@@ -186,7 +193,7 @@ def run(oc, tier, seed):
         if i < 2:
             oc.samples.append({k: v for k, v in case.items() if k != "files"})
         if ok:
-            oc.nontriv((case["pats"], case["target"], case["template"], str(case["vars"]), case["overwrite"]))
+            oc.nontriv((case["pats"], str(case["ops"])))
         else:
             break
     eng.close()
